@@ -65,6 +65,10 @@ type Config struct {
 	// revenue sharing, with governance-set share agreements on both denoms: the pool manager keeps the agreements and the
 	// alloyed composition in in-memory caches that a restarted or imported node rebuilds from the store
 	Alloyed bool
+	// LockedCL: the share of the bootstrap CL pool is a superfluid asset and the set-up blocks leave a full-range position
+	// whose underlying lock has been undelegated and is unbonding: once it matures (three weeks of generated block
+	// intervals) the position still carries the link to a lock that no longer binds it
+	LockedCL bool
 }
 
 var splits = [][3]string{{"1", "0", "0"}, {"0.5", "0.3", "0.2"}, {"0.3", "0.3", "0.4"}, {"0", "0", "1"}, {"0.67", "0.33", "0"}, {"0.4", "0.4", "0.2"}}
@@ -81,6 +85,7 @@ func GenConfig(rt *rapid.T) Config {
 		CommunityDenom:      rapid.SampledFrom([]string{"", "usdc", "uosmo"}).Draw(rt, "communityDenom"),
 		Uptimes:             rapid.IntRange(1, 3).Draw(rt, "uptimes"),
 		Alloyed:             rapid.IntRange(0, 2).Draw(rt, "alloyedPool") == 0,
+		LockedCL:            rapid.IntRange(0, 2).Draw(rt, "lockedCLPosition") == 0,
 		BootGauges:          rapid.SampledFrom([][3]int{{0, 0, 0}, {1, 3, 3}, {3, 1, 3}, {1, 1, 3}, {2, 1, 2}, {1, 2, 3}, {3, 3, 3}}).Draw(rt, "bootGauges"),
 	}
 }
@@ -210,6 +215,13 @@ func Bootstrap(cfg Config) func(n *Node, ctx sdk.Context) {
 		if cfg.Alloyed {
 			bootstrapAlloyedPool(n, ctx, run)
 		}
+		if cfg.LockedCL {
+			// registered only: the multiplier is computed by the first superfluid epoch that finds full-range liquidity
+			// (a second CL pool, over the bond denom: the multiplier of a concentrated share is its value in the bond denom)
+			sfp := clmodel.NewMsgCreateConcentratedPool(Actor(0), Bond, "usdc", 100, dec("0.001"))
+			run(&sfp)
+			a.SuperfluidKeeper.SetSuperfluidAsset(ctx, sftypes.SuperfluidAsset{Denom: cltypes.GetConcentratedLockupDenomFromPoolId(a.PoolManagerKeeper.GetNextPoolId(ctx) - 1), AssetType: sftypes.SuperfluidAssetTypeConcentratedShare})
+		}
 		for i, ep := range cfg.BootGauges {
 			if ep > 0 {
 				run(incentivestypes.NewMsgCreateGauge(false, Actor(i%(NActors-1)), lockuptypes.QueryCondition{LockQueryType: lockuptypes.ByDuration, Denom: []string{"foo", "usdc", "foo"}[i], Duration: time.Second},
@@ -240,6 +252,59 @@ func SetupBlock(n *Node) {
 			panic("setup block: " + r.Log)
 		}
 	}
+	setupLockedCL(n)
+}
+
+// setupLockedCL runs only on chains whose bootstrap registered the CL share as a superfluid asset (read from state, so that
+// every node, and every replay, decides alike): a plain full-range position, a day later (the superfluid epoch has priced
+// the share) a full-range position created locked and delegated by actor 3, then its undelegation and the unbonding of
+// the lock. The generated history starts with that lock unbonding.
+func setupLockedCL(n *Node) {
+	share := ""
+	for _, as := range n.App.SuperfluidKeeper.GetAllSuperfluidAssets(n.ReadCtx()) {
+		if as.AssetType == sftypes.SuperfluidAssetTypeConcentratedShare {
+			share = as.Denom
+		}
+	}
+	if share == "" {
+		return
+	}
+	pool := cltypes.MustGetPoolIdFromShareDenom(share)
+	must := func(what string, dt time.Duration, msgs ...sdk.Msg) {
+		var txs [][]byte
+		for i, m := range msgs {
+			tx, err := n.SignTx(3, uint64(i), 8_000_000, sdk.NewCoins(coin(Bond, 400_000)), m)
+			if err != nil {
+				panic(err)
+			}
+			txs = append(txs, tx)
+		}
+		br, err := n.RunBlock(dt, txs, n.Votes())
+		if err != nil {
+			panic(err)
+		}
+		for _, b := range br.Tx {
+			if r := DecodeTxResult(b); r.Code != 0 {
+				panic("setup block (" + what + "): " + r.Log)
+			}
+		}
+	}
+	me := Actor(3)
+	must("plain full-range position", 5*time.Second, &cltypes.MsgCreatePosition{PoolId: pool, Sender: me.String(), LowerTick: cltypes.MinInitializedTick, UpperTick: cltypes.MaxTick,
+		TokensProvided: sdk.NewCoins(coin(Bond, 5_000_000_000), coin("usdc", 5_000_000_000)), TokenMinAmount0: osmomath.ZeroInt(), TokenMinAmount1: osmomath.ZeroInt()})
+	must("epoch", 8*24*time.Hour+time.Hour) // the superfluid epoch is the distribution epoch: a day or a week
+	vals, _ := n.App.StakingKeeper.GetAllValidators(n.ReadCtx())
+	must("locked full-range position", 5*time.Second, sftypes.NewMsgCreateFullRangePositionAndSuperfluidDelegate(me, sdk.NewCoins(coin(Bond, 1_000_000_000), coin("usdc", 1_000_000_000)), vals[0].GetOperator(), pool))
+	var lockID uint64
+	for _, l := range n.App.LockupKeeper.GetAccountPeriodLocks(n.ReadCtx(), me) {
+		if len(l.Coins) == 1 && l.Coins[0].Denom == share {
+			lockID = l.ID
+		}
+	}
+	if lockID == 0 {
+		panic("setup: no lock under the superfluid CL position")
+	}
+	must("undelegate and unbond", 5*time.Second, sftypes.NewMsgSuperfluidUndelegate(me, lockID), sftypes.NewMsgSuperfluidUnbondLock(me, lockID))
 }
 
 // Block is one generated block of the plan that every node executes.
